@@ -26,8 +26,16 @@ EXTRA_SCRIPTS = {
     "stor-over": ["EPSV", "@data", "STOR g", "@dsend Z", "@dclose"],
     "appe-new": ["EPSV", "@data", "APPE n", "@dsend Z", "@dclose"],
 }
+# the data connection is opened first, other commands follow, the transfer comes last: a backend failure in one of the
+# other commands must leave the waiting data connection alone (it belongs to the transfer)
+PREOPENED = {
+    "preopened-mkd-retr": ["EPSV", "@data", "MKD x", "RETR d/f"],
+    "preopened-dele-stor": ["PASV", "@data", "DELE g", "CWD d", "STOR new", "@dsend 0123", "@dclose"],
+    "preopened-mlst-list": ["EPSV", "@data", "MLST d", "RNFR g", "RNTO h", "LIST"],
+}
 SCRIPTS = dict(corpus.SCRIPTS)
 SCRIPTS.update(EXTRA_SCRIPTS)
+SCRIPTS.update(PREOPENED)
 OTHER_SCRIPT = ["EPSV", "@data", "RETR o", "PWD", "MLST o"]
 
 
@@ -80,7 +88,7 @@ def run_fault(case, chooser):
                 other_i += 1
             if spy.failed and affected is None:
                 affected, cmd_start = cur_cmd, cur_start
-                if case["mode"] == "single":
+                if case["mode"] == "single" and case["script"] not in PREOPENED:
                     break
         chooser.active = False
         w.settle()
@@ -118,6 +126,15 @@ def run_fault(case, chooser):
                     and t.get_extra_info("sockname")[1] != 2121]
             if mine:
                 problems.append({"kind": "data-connection-left-open-after-451", "codes": first_cmd_codes, **sig_base})
+        if case["script"] in PREOPENED and case["mode"] == "single":
+            last = [e for e in script if _is_cmd(e)][-1]
+            if affected != last:
+                # the fault hit another command: the transfer for which the data connection was opened goes through
+                tail = [c for ev_name, r in s0.transcript if ev_name == last or ev_name.startswith("@d") for c, _ in r]
+                tail += [c for ev_name, r in s0.transcript[-1:] if ev_name == "<late>" for c, _ in r]
+                if not ("150" in tail and "226" in tail):
+                    problems.append({"kind": "waiting-data-connection-lost-by-another-commands-failure", "transfer": last,
+                                     "codes": tail, **sig_base})
         if spy.leaked():
             problems.append({"kind": "file-handle-open", "paths": spy.leaked(), **sig_base})
         # the session stays usable
